@@ -316,6 +316,35 @@ def interleave_work(item):
     return acc
 
 
+def cross_kind_work(order):
+    """one process, the same strings judged by rules of different content kinds one after the other (every ordered pair of
+    kinds, each string first by one and then by the other): a verdict must not be remembered from a rule of another kind"""
+    tab = ruleinfo.table()
+    by_kind = {}
+    for rn in sorted(tab):
+        cr = tuple(tab[rn][2].get("content_rules", []))
+        if tab[rn][2].get("content_enum") is None and rn not in e2.MIXED_RULES:
+            by_kind.setdefault(cr, rn)
+    kinds = sorted(by_kind)
+    if order == "reverse":
+        kinds = list(reversed(kinds))
+    strings = ["7.25", "45.5", "1E2", "12", "-3", "0", "1e309", "1_0", " 7", "7 ", "2020", "2020-01-01", "12:00:00", "http://x.org", "x",
+               "", "nan", "90", "91", "181", "-0.0", "+5", "\u0663", "1,5"]
+    ctxs = {k: Ctx(by_kind[k], "plain") for k in kinds}
+    acc = core.Acc()
+    for s in strings:
+        for a in kinds:
+            for b in kinds:
+                if a == b:
+                    continue
+                for k in (a, b):
+                    v, probs = run_one(ctxs[k], s)
+                    acc.count("strings")
+                    acc.outcome(v)
+                    acc.add_problems([dict(p_, case=dict(p_["case"], cross_kind_order=order)) for p_ in probs])
+    return acc
+
+
 def foreign_child_work(item):
     """every rule with one foreign child element: the node is invalid anyway, but the CONTENT errors collected must
     still be exactly those the content constraints imply (children only stand in for text under mixed-content rules)"""
@@ -366,6 +395,9 @@ def enum_work(item):
 
 
 def replay(case):
+    if case.get("cross_kind_order"):
+        a = cross_kind_work(case["cross_kind_order"])
+        return [p for ps in a.problems.values() for p in ps if p["case"].get("rule") == case.get("rule") and p["case"].get("content") == case.get("content")]
     if case.get("routes"):
         a = ruleinfo.route_work(case["rule"])
         return [p for ps in a.problems.values() for p in ps if core.jsonable(p["case"]) == case]
@@ -403,6 +435,7 @@ def explore(tier):
     accs += core.pmap(enum_work, [(tier, rn) for rn in sorted(tab) if tab[rn][2].get("content_enum")])
     accs += core.pmap(foreign_child_work, [(tier, rn) for rn in sorted(tab)])
     accs += core.pmap(ruleinfo.route_work, sorted(tab))
+    accs += core.pmap(cross_kind_work, ["forward", "reverse"])
     accs += core.pmap(interleave_work, [(tier, rn, first) for rn in sorted(tab) if rn in e2.MIXED_RULES and ruleinfo.automata(rn).names
                                         for first in ("with_child", "plain")])
     acc = core.merge_all(accs)
